@@ -158,18 +158,22 @@ func plan(prop, tier string) []run {
 		add("K3b@v0e", "M2", 0, 15*time.Second) // weighted, two Byzantine members: exhaustive
 		add("K1@v1e", "M1", 0, 15*time.Second)  // eager PREPARE/COMMIT, one view change: exhaustive
 		add("K3~d", "M1", 0, 10*time.Second)    // weighted committee, descending storage order
+		add("K1@v1", "M1", -1, 10*time.Second)  // L2: every single-delivery order (no flush macro), one view change
+		add("K2@v0e", "M2", -1, 15*time.Second) // L2 under an equivocating proposer
 		add("K2", "M2", 0, 12*time.Second)
 		add("K1", "MALL", 0, 15*time.Second)
 		add("K2", "MALL", 0, 15*time.Second)
 		add("K6", "M7", 0, 10*time.Second)
 		return r
 	}
-	for _, k := range []string{"K2@v0e", "K3b@v0e", "K1@v1e", "K2@v1e", "K3@v1e", "K4@v0e"} {
+	// thorough: the whole portfolio (§4.2): eager view-bounded configurations to exhaustion, then every
+	// configuration x menu with a per-run budget (exhaustive where the frontier empties, else depth-bounded)
+	for _, k := range []string{"K2@v0e", "K3b@v0e", "K1@v1e", "K2@v1e", "K3@v1e", "K4@v0e", "K3~d@v1e"} {
 		for _, m := range []string{"M1", "M2", "MALL"} {
-			add(k, m, 0, 60*time.Second)
+			add(k, m, 0, 40*time.Second)
 		}
 	}
-	for _, k := range []string{"K1", "K2", "K3", "K3b", "K4", "K5", "K6"} {
+	for _, k := range []string{"K1", "K2", "K3", "K3b", "K4", "K5", "K6", "K1~d", "K2~d"} {
 		for _, m := range []string{"M0", "M1", "M2", "M3", "M4", "M4F", "M4W", "M6", "M7"} {
 			if m == "M7" && k != "K6" {
 				continue
@@ -177,15 +181,20 @@ func plan(prop, tier string) []run {
 			if k == "K5" && m != "M0" {
 				continue
 			}
-			add(k, m, 0, 60*time.Second)
+			bud := 15 * time.Second
+			if k == "K1" || k == "K2" {
+				bud = 40 * time.Second
+			}
+			add(k, m, 0, bud)
 		}
 		if k != "K5" {
-			add(k, "MALL", 0, 90*time.Second)
+			add(k, "MALL", 0, 40*time.Second)
 		}
 	}
-	add("K1", "M1", 2, 120*time.Second)
-	add("K2", "M2", 2, 120*time.Second)
-	add("K7", "M1", 0, 120*time.Second)
+	add("K1", "M1", 2, 90*time.Second)
+	add("K2", "M2", 2, 90*time.Second)
+	add("K1@v1", "M1", -1, 90*time.Second) // L2: single deliveries only, no flush
+	add("K7", "M1", 0, 90*time.Second)
 	return r
 }
 
